@@ -19,6 +19,7 @@ all paths, all weight lists, all oracles for the third-party `url.Parse` / jsoni
 import Pandora.Proofs.C13Ammo
 import Pandora.Proofs.C13Funcs
 import Pandora.Proofs.C13Multi
+import Pandora.Proofs.C13Jsonline
 import Pandora.Bridge.C13
 
 namespace Pandora.Props.C13
@@ -614,30 +615,68 @@ theorem C13_rejected_negative_size_source (size : Int) :
   · intro h; exact C13_rejected_negative_size size [] h
 
 open Pandora.Bridge.C13 in
-/-- the four `Scan` loops as they stand now: a file is read again only when neither the pass-limit test nor the
-no-ammo test of the source holds, and then it has given at least one entry -/
+/-- the four `Scan` loops as they stand now (the statements between the end of the file and the next read, executed in
+source order): the file is read again only when it has given at least one entry and the pass limit allows another pass,
+and then it was sought to its start -/
 theorem C13_terminates_http_pass_source (passes passNum ammoNum : Nat) :
-    (¬ Gen.C13Src.uripostPassLimit passes passNum → ¬ Gen.C13Src.uripostNoAmmo ammoNum → 0 < ammoNum ∧ (passes = 0 ∨ passNum < passes)) ∧
-    (¬ Gen.C13Src.rawPassLimit passes passNum → ¬ Gen.C13Src.rawNoAmmo ammoNum → 0 < ammoNum ∧ (passes = 0 ∨ passNum < passes)) ∧
-    (¬ Gen.C13Src.uriPassLimit passes passNum → ¬ Gen.C13Src.uriNoAmmo ammoNum → 0 < ammoNum ∧ (passes = 0 ∨ passNum < passes)) ∧
-    (¬ Gen.C13Src.jsonlinePassLimit passes passNum → ¬ Gen.C13Src.jsonlineNoAmmo ammoNum → 0 < ammoNum ∧ (passes = 0 ∨ passNum < passes)) := by
-  have key : ∀ (pl na : Bool), httpPassEnd passes passNum ammoNum = passEndOf pl na → pl = false → na = false →
-      0 < ammoNum ∧ (passes = 0 ∨ passNum < passes) := by
-    intro pl na h hpl hna
-    subst hpl; subst hna
-    exact httpPassEnd_again passes passNum ammoNum (by rw [h]; rfl)
+    ((Gen.C13Src.uripostPassEnd passes passNum ammoNum).1 = 0 →
+      0 < ammoNum ∧ (passes = 0 ∨ passNum + 1 < passes) ∧ (Gen.C13Src.uripostPassEnd passes passNum ammoNum).2.2 = true) ∧
+    ((Gen.C13Src.rawPassEnd passes passNum ammoNum).1 = 0 →
+      0 < ammoNum ∧ (passes = 0 ∨ passNum + 1 < passes) ∧ (Gen.C13Src.rawPassEnd passes passNum ammoNum).2.2 = true) ∧
+    ((Gen.C13Src.uriPassEnd passes passNum ammoNum).1 = 0 →
+      0 < ammoNum ∧ (passes = 0 ∨ passNum + 1 < passes) ∧ (Gen.C13Src.uriPassEnd passes passNum ammoNum).2.2 = true) ∧
+    ((Gen.C13Src.jsonlinePassEnd passes passNum ammoNum).1 = 0 →
+      0 < ammoNum ∧ (passes = 0 ∨ passNum + 1 < passes) ∧ (Gen.C13Src.jsonlinePassEnd passes passNum ammoNum).2.2 = true) := by
+  have code0 : ∀ p : PassEnd, passEndCode p = 0 → p = .again := by
+    intro p h
+    cases p with
+    | again => rfl
+    | stop e => cases e <;> simp [passEndCode] at h
+  have key : ∀ (g : Int × Int × Bool), g.1 = passEndCode (httpPassEnd passes (passNum + 1) ammoNum) →
+      (g.1 = 0 → g.2.1 = ((passNum + 1 : Nat) : Int) ∧ g.2.2 = true) → g.1 = 0 →
+      0 < ammoNum ∧ (passes = 0 ∨ passNum + 1 < passes) ∧ g.2.2 = true := by
+    intro g h1 h2 h0
+    obtain ⟨ha, hp⟩ := httpPassEnd_again passes (passNum + 1) ammoNum (code0 _ (by rw [← h1]; exact h0))
+    exact ⟨ha, hp, (h2 h0).2⟩
   refine ⟨?_, ?_, ?_, ?_⟩
-  · intro h1 h2
-    exact key _ _ (uripostPassEnd_bridge passes passNum ammoNum).2 (by simpa using h1) (by simpa using h2)
-  · intro h1 h2
-    exact key _ _ (rawPassEnd_bridge passes passNum ammoNum).2 (by simpa using h1) (by simpa using h2)
-  · intro h1 h2
-    exact key _ _ (uriPassEnd_bridge passes passNum ammoNum).2 (by simpa using h1) (by simpa using h2)
-  · intro h1 h2
-    obtain ⟨_, hp, hn⟩ := jsonlinePassEnd_bridge passes passNum ammoNum
-    have h1' : ¬ Gen.C13Src.uripostPassLimit passes passNum := fun h => h1 (hp.mpr h)
-    have h2' : ¬ Gen.C13Src.uripostNoAmmo ammoNum := fun h => h2 (hn.mpr h)
-    exact key _ _ (uripostPassEnd_bridge passes passNum ammoNum).2 (by simpa using h1') (by simpa using h2')
+  · exact key _ (uripostPassEnd_bridge passes passNum ammoNum).1 (uripostPassEnd_bridge passes passNum ammoNum).2
+  · exact key _ (rawPassEnd_bridge passes passNum ammoNum).1 (rawPassEnd_bridge passes passNum ammoNum).2
+  · exact key _ (uriPassEnd_bridge passes passNum ammoNum).1 (uriPassEnd_bridge passes passNum ammoNum).2
+  · intro h0
+    obtain ⟨h1, h2⟩ := jsonlinePassEnd_bridge passes passNum ammoNum
+    have hag : jlPassEnd passes passNum ammoNum = .again := code0 _ (by rw [← h1]; exact h0)
+    rcases jlPassEnd_http passes passNum ammoNum with h | ⟨_, h, _⟩
+    · obtain ⟨ha, hp⟩ := httpPassEnd_again passes (passNum + 1) ammoNum (by rw [← h]; exact hag)
+      exact ⟨ha, hp, (h2 h0).2⟩
+    · rw [hag] at h; cases h
+
+open Pandora.Bridge.C13 in
+/-- `scanAmmos` as it stands in decoders/jsonline.go now: for every array length, pass limit and pair of counters the
+remainder does not divide by zero and the index is inside the slice - the function returns an element or an error -/
+theorem C13_no_panic_jsonline_scanAmmos_source (elems : List Bytes) (passes : Nat) (s : JlArr) :
+    (Gen.C13Src.scanAmmos elems.length passes s.passNum s.ammoNum).returns = true := by
+  have h := scanAmmos_bridge elems passes s
+  cases hg : Gen.C13Src.scanAmmos elems.length passes s.passNum s.ammoNum with
+  | ok v => rfl
+  | err c => rfl
+  | panic w => rw [hg] at h; simp at h
+  | fatal w => rw [hg] at h; simp at h
+
+open Pandora.Bridge.C13 in
+/-- the EOF block of `MultiPassReader.Read` as it stands now, executed in source order from any well-formed state at the
+end of the source: when it seeks the source to its start (no early return), the source holds data - the next `Read`
+delivers a byte, the `(0, nil)` answer is not repeated -/
+theorem C13_terminates_multipass_source (data : Bytes) (passes : Nat) (s : MPR) (h : MPR.WF data s)
+    (hend : data[s.pos]? = none) (hres : s.resets = decide ((Gen.C13Src.mprEof 1 0 0 false false).2.2.1 = 0))
+    (hnoret : (Gen.C13Src.mprEof s.passBytes s.passesCount passes true (decide (Gen.C13Src.dpProgress s.ammoNum s.passStart))).1 = false)
+    (hseek : (Gen.C13Src.mprEof s.passBytes s.passesCount passes true (decide (Gen.C13Src.dpProgress s.ammoNum s.passStart))).2.1 = true) :
+    0 < data.length ∧ ∃ b s'', mprReadByte true data passes (mprReadByte true data passes s).2 = (.byte b, s'') := by
+  have hb := mprRead_bridge data passes s hend hres
+  simp only [hnoret, hseek, Bool.false_eq_true, if_false, if_true] at hb
+  obtain ⟨hp, hl, _⟩ := mprReadByte_fixed_again data passes s _ h hb
+  refine ⟨hl, ?_⟩
+  rw [hb]
+  exact mprReadByte_fixed_after_again data passes _ hp hl
 
 namespace Ex
 /-- `r1(0)` -/
@@ -649,6 +688,17 @@ def jtrunc : Bytes := [123, 34, 116, 97, 103, 34, 58, 34, 97]
 end Ex
 
 example : expand true knownR1 [r1x0] = .ok [] := by decide
+/-- the regenerated pass-end paths on concrete counters: read again after a pass with entries, "no ammo" after one without,
+the pass limit; the regenerated `scanAmmos` at the last element of a two-element array; the regenerated EOF block of
+`MultiPassReader.Read` in a state that meets the hypotheses of `C13_terminates_multipass_source` -/
+example : Gen.C13Src.uriPassEnd 0 0 2 = (0, 1, true) ∧ Gen.C13Src.rawPassEnd 0 0 0 = (2, 1, false) ∧
+    Gen.C13Src.uripostPassEnd 2 1 5 = (1, 2, false) ∧ Gen.C13Src.jsonlinePassEnd 0 0 0 = (2, 0, false) ∧
+    Gen.C13Src.jsonlinePassEnd 2 1 5 = (1, 2, true) := by decide
+example : Gen.C13Src.scanAmmos 2 0 1 3 = .ok (1, 2, 4) ∧ Gen.C13Src.scanAmmos 0 0 0 0 = .err "noammo" ∧
+    Gen.C13Src.scanAmmos 2 1 1 2 = .err "passlimit" := by decide
+example : (Gen.C13Src.mprEof 12 0 0 true (decide (Gen.C13Src.dpProgress 1 0))).1 = false ∧
+    (Gen.C13Src.mprEof 12 0 0 true (decide (Gen.C13Src.dpProgress 1 0))).2.1 = true ∧
+    jt[12]? = none ∧ ((12 : Nat) ≠ 0 → 0 < jt.length) := by decide
 example : expand true knownR1 [r1x0, sleep10, r1] = .err "leading-sleep" := by decide
 /-- the tree as found guarded only against a sleep at the head of the list … and not even that: `[r1(0), sleep(10)]` -/
 example : (expand false knownR1 [r1x0, sleep10, r1]).isPanic = true := by decide
@@ -665,6 +715,125 @@ theorem C13_unrepaired_multipass_spins (fuel : Nat) : (loadByte false [] 0 fuel 
 
 theorem C13_unrepaired_genjson_hangs : (genjsonRun false [] 0 3).end_ = "hang" ∧ (genjsonRun false [32, 10] 0 3).end_ = "hang" := by
   decide
+
+/-! ## jsonline (`encoding/json` is a parameter: every reading `JSrc` of the file) -/
+
+/-- `scanAmmos` (a jsonline file that is one JSON array): for every array - the empty one too -, every pass limit and every
+value of the two counters, `int(d.ammoNum) % length` does not divide by zero and `d.ammos[i]` is inside the slice -/
+theorem C13_no_panic_jsonline_scanAmmos (elems : List Bytes) (passes : Nat) (s : JlArr) :
+    (scanAmmos elems passes s).1 ≠ .panic := scanAmmos_no_panic elems passes s
+
+/-- the http provider over a jsonline file, whatever the library makes of it, with and without preload, every passes and
+limit: it never ends in a panic or a fatal error -/
+theorem C13_no_panic_jsonline (src : JSrc) (pre : Bool) (passes limit : Nat) :
+    (jsonlineRun src pre passes limit).end_ ≠ .panic ∧ (jsonlineRun src pre passes limit).end_ ≠ .fatal := by
+  cases src with
+  | refused => simp [jsonlineRun, ctorErr]
+  | array elems =>
+    cases elems with
+    | none => simp [jsonlineRun, ctorErr]
+    | some es => exact jlArrayLoop_no_panic es passes limit _ _ _ _
+  | stream items =>
+    simp only [jsonlineRun]
+    have hc := jsonlineRun_stream_one_clean items pre
+    generalize (if pre = true ∧ (jlItems items).end_ ≠ .ok then { jlItems items with entries := [] } else jlItems items) = one at hc
+    unfold multiRunAll
+    rcases multiRun_end_cases one passes limit ((if limit ≠ 0 then limit else passes) + 1) 0 0 with h | h | h | h
+    · rw [h]; simp
+    · rw [h]; cases he : one.end_ <;> rw [he] at hc <;> simp [End.clean] at hc ⊢
+    · rw [h]; simp
+    · rw [h]; simp
+
+/-- … and with a limit or a pass limit it ends (an array is handed out `passes` times, element by element; a stream is
+read again only after a pass that gave an entry) -/
+theorem C13_terminates_jsonline (src : JSrc) (pre : Bool) (passes limit : Nat) (h : limit ≠ 0 ∨ passes ≠ 0) :
+    (jsonlineRun src pre passes limit).end_ ≠ .fuel := by
+  cases src with
+  | refused => simp [jsonlineRun, ctorErr]
+  | array elems =>
+    cases elems with
+    | none => simp [jsonlineRun, ctorErr]
+    | some es =>
+      simp only [jsonlineRun]
+      rcases Nat.eq_zero_or_pos es.length with h0 | hpos
+      · have : es = [] := List.eq_nil_of_length_eq_zero h0
+        subst this
+        rw [jlArrayRun_nil]; simp
+      · unfold jlArrayRun
+        by_cases hl : limit ≠ 0
+        · rw [if_pos hl]
+          exact jlArrayLoop_no_fuel_limit es passes limit hl _ _ _ _ (by omega)
+        · have hp : passes ≠ 0 := by rcases h with h | h; exact absurd h hl; exact h
+          rw [if_neg hl]
+          exact jlArrayLoop_no_fuel_passes es passes limit hp _ _ _ _ (JlArr.init_Inv _ hpos) (by simp)
+  | stream items =>
+    simp only [jsonlineRun]
+    have hc := jsonlineRun_stream_one_clean items pre
+    generalize (if pre = true ∧ (jlItems items).end_ ≠ .ok then { jlItems items with entries := [] } else jlItems items) = one at hc
+    refine C13_terminates_http_passes one passes limit ?_ h
+    intro he; rw [he] at hc; simp [End.clean] at hc
+
+/-- a file the constructor refuses (nothing but white space, a first token that is not `{` / `[`), an array that does not
+decode (truncated, a wrong type), an empty array: an error, nothing is delivered -/
+theorem C13_rejected_jsonline_ctor (pre : Bool) (passes limit : Nat) :
+    jsonlineRun .refused pre passes limit = ctorErr ∧ jsonlineRun (.array none) pre passes limit = ctorErr ∧
+    jsonlineRun (.array (some [])) pre passes limit = ⟨[], .err "noammo", []⟩ :=
+  ⟨rfl, rfl, jlArrayRun_nil passes limit⟩
+
+/-- objects the decoder gets through, then a value it refuses (not JSON, a wrong type, cut by the end of the file): the
+run delivers the entries of the objects - none with preload - and ends with an error, whatever follows, whatever `passes`;
+`limit` is not reached by the objects -/
+theorem C13_rejected_jsonline (tags : List Bytes) (post : List JItem) (pre : Bool) (passes limit : Nat)
+    (hl : limit = 0 ∨ tags.length < limit) :
+    jsonlineRun (.stream (tags.map .good ++ .bad :: post)) pre passes limit =
+      ⟨if pre then [] else tags.map fun t => ⟨t, [], []⟩, .err "other", []⟩ := by
+  have hone : jlItems (tags.map .good ++ .bad :: post) = ⟨tags.map fun t => ⟨t, [], []⟩, .err "other", []⟩ := by
+    rw [jlItems_reject _ _ (by rw [jlItems_goods])]
+    rw [jlItems_goods]
+  simp only [jsonlineRun, hone]
+  cases pre with
+  | false =>
+    simp only [Bool.false_eq_true, false_and, if_false]
+    unfold multiRunAll
+    rw [multiRun]
+    have : ¬ (limit ≠ 0 ∧ 0 + (tags.map fun t => (⟨t, [], []⟩ : Entry)).length ≥ limit) := by
+      simp only [List.length_map]; omega
+    rw [if_neg this]
+    simp
+  | true =>
+    simp only [true_and, ne_eq, reduceCtorEq, not_false_eq_true, if_true]
+    unfold multiRunAll
+    rw [multiRun]
+    have : ¬ (limit ≠ 0 ∧ 0 + ([] : List Entry).length ≥ limit) := by
+      simp only [List.length_nil]; omega
+    rw [if_neg this]
+    simp
+
+/-- whatever follows well-formed objects, their entries come first and unchanged; the rest is decoded as if it stood alone -/
+theorem C13_prefix_preserved_jsonline (tags : List Bytes) (junk : List JItem) :
+    jlItems (tags.map .good ++ junk) = (jlItems junk).prepend (tags.map fun t => ⟨t, [], []⟩) := by
+  rw [jlItems_append _ _ (by rw [jlItems_goods]), jlItems_goods]
+
+/-- array mode: whatever is delivered is an element of the array (nothing is made up when the index wraps around) -/
+theorem C13_jsonline_array_entries (elems : List Bytes) (passes limit : Nat) :
+    ∀ e ∈ (jlArrayRun elems passes limit).entries, e.tag ∈ elems := by
+  rcases Nat.eq_zero_or_pos elems.length with h0 | hpos
+  · have : elems = [] := List.eq_nil_of_length_eq_zero h0
+    subst this
+    rw [jlArrayRun_nil]; simp
+  · exact jlArrayLoop_entries elems passes limit _ _ _ _ (JlArr.init_Inv _ hpos) (by simp)
+
+namespace Ex
+def tA : Bytes := [97]
+def tB : Bytes := [98]
+end Ex
+
+example : jsonlineRun (.stream [.good tA, .good tB, .bad, .good tA]) false 0 5 = ⟨[⟨tA, [], []⟩, ⟨tB, [], []⟩], .err "other", []⟩ := by decide
+example : jsonlineRun (.stream [.good tA, .good tB]) false 0 5 =
+    ⟨[⟨tA, [], []⟩, ⟨tB, [], []⟩, ⟨tA, [], []⟩, ⟨tB, [], []⟩, ⟨tA, [], []⟩], .ok, []⟩ := by decide
+example : jsonlineRun (.array (some [tA, tB])) false 2 0 = ⟨[⟨tA, [], []⟩, ⟨tB, [], []⟩, ⟨tA, [], []⟩, ⟨tB, [], []⟩], .ok, []⟩ := by decide
+example : jsonlineRun (.array (some [tA])) true 0 3 = ⟨[⟨tA, [], []⟩, ⟨tA, [], []⟩, ⟨tA, [], []⟩], .ok, []⟩ := by decide
+example : (scanAmmos [] 0 ⟨0, 0⟩).1 = .noAmmo ∧ (scanAmmos [tA, tB] 1 ⟨2, 1⟩).1 = .passLimit ∧ (scanAmmos [tA, tB] 0 ⟨3, 1⟩).1 = .ammo tB := by decide
 
 /-! ## the property, component by component
 
@@ -691,17 +860,19 @@ def C13_no_panic_unchanged_statement : Prop :=
   (∀ h : Bytes, (decodeHeader h).returns = true) ∧
   (∀ shoot : Bytes, (parseStringFunc shoot).returns = true) ∧
   (∀ shoot : Bytes, (parseShootName shoot).returns = true) ∧
-  (∀ nLetters rnd : Nat, ∃ i, pickLetter nLetters rnd = .ok i)
+  (∀ nLetters rnd : Nat, ∃ i, pickLetter nLetters rnd = .ok i) ∧
+  (∀ (src : JSrc) (pre : Bool) (passes limit : Nat),
+    (jsonlineRun src pre passes limit).end_ ≠ .panic ∧ (jsonlineRun src pre passes limit).end_ ≠ .fatal)
 
 /-- C13, "never crashes the process with a panic": all byte strings as uripost / raw / uri / grpc-json files, all request
-lists, variable paths, placeholder strings, randInt / randString arguments, pools shapes and scenario weights -/
+lists, variable paths, placeholder strings, randInt / randString arguments, pools shapes and scenario weights, all readings of a jsonline file -/
 theorem C13_no_panic : C13_no_panic_statement true ∧ C13_no_panic_unchanged_statement :=
   ⟨⟨C13_no_panic_uripost, C13_no_panic_raw, C13_no_panic_expand, C13_no_panic_getMapValue, C13_no_panic_resolveTags,
     C13_no_panic_randInt,
     fun p => by obtain ⟨v, h⟩ := C13_no_panic_readConfig p; rw [h]; simp [Res.returns, Res.isPanic, Res.isFatal],
     C13_no_panic_spread, C13_no_panic_randString, C13_no_panic_nullItem⟩,
    ⟨C13_no_panic_uri, C13_no_panic_grpcjson, C13_no_panic_decodeHeader, C13_no_panic_parseStringFunc,
-    C13_no_panic_parseShootName, C13_no_panic_pickLetter⟩⟩
+    C13_no_panic_parseShootName, C13_no_panic_pickLetter, C13_no_panic_jsonline⟩⟩
 
 /-- C13, "is rejected with an error, or skipped where continue-on-error is requested" -/
 def C13_rejected_or_skipped_statement : Prop :=
@@ -745,13 +916,21 @@ def C13_rejected_or_skipped_statement : Prop :=
     expand true known pre = .ok [] → parseShootName sh = .ok ⟨sleepName, cnt, sl⟩ →
     expand true known (pre ++ sh :: rest) = .err "leading-sleep") ∧
   (∀ (one : Run) (limit : Nat), one.entries = [] → one.end_ = .ok → multiRunAll one 0 limit = ⟨[], .err "noammo", []⟩) ∧
-  (∀ (data : Bytes), (∀ b ∈ data, isJsonWs b = true) → ∀ passes limit : Nat, genjsonRun true data passes limit = ⟨[], "ok"⟩)
+  (∀ (data : Bytes), (∀ b ∈ data, isJsonWs b = true) → ∀ passes limit : Nat, genjsonRun true data passes limit = ⟨[], "ok"⟩) ∧
+  -- jsonline: a refused file / array, an empty array; a refused value after objects
+  (∀ (pre : Bool) (passes limit : Nat),
+    jsonlineRun .refused pre passes limit = ctorErr ∧ jsonlineRun (.array none) pre passes limit = ctorErr ∧
+    jsonlineRun (.array (some [])) pre passes limit = ⟨[], .err "noammo", []⟩) ∧
+  (∀ (tags : List Bytes) (post : List JItem) (pre : Bool) (passes limit : Nat), limit = 0 ∨ tags.length < limit →
+    jsonlineRun (.stream (tags.map .good ++ .bad :: post)) pre passes limit =
+      ⟨if pre then [] else tags.map fun t => ⟨t, [], []⟩, .err "other", []⟩)
 
 theorem C13_rejected_or_skipped : C13_rejected_or_skipped_statement :=
   ⟨C13_rejected_uripost, C13_rejected_raw, C13_rejected_uri, C13_rejected_negative_size, C13_rejected_oversize,
    C13_rejected_or_skipped_grpcjson, C13_rejected_leading_sleep, C13_rejected_unknown_request, C13_rejected_bad_shoot,
    C13_rejected_empty_source, C13_rejected_property_no_hash, C13_rejected_negative_weight, C13_rejected_negative_length,
-   C13_rejected_sleep_without_request, C13_rejected_http_no_ammo, C13_rejected_genjson_no_ammo⟩
+   C13_rejected_sleep_without_request, C13_rejected_http_no_ammo, C13_rejected_genjson_no_ammo,
+   C13_rejected_jsonline_ctor, C13_rejected_jsonline⟩
 
 /-- C13, "never alters how well-formed entries before it are delivered" (both code variants of the size-prefixed decoders) -/
 def C13_prefix_preserved_statement (fixed : Bool) : Prop :=
@@ -763,10 +942,13 @@ def C13_prefix_preserved_statement (fixed : Bool) : Prop :=
   (∀ (urlOk : Bytes → Bool) (good junk : Bytes), (uriRun urlOk good).end_ = .ok →
     uriRun urlOk (good ++ 10 :: junk) = (uriRun urlOk junk).prepend (uriRun urlOk good).entries) ∧
   (∀ (coe : Bool) (json : Bytes → Option Bytes) (l1 l2 : List Bytes), (grpcLines coe json l1).end_ = .ok →
-    grpcLines coe json (l1 ++ l2) = (grpcLines coe json l2).prepend (grpcLines coe json l1).entries)
+    grpcLines coe json (l1 ++ l2) = (grpcLines coe json l2).prepend (grpcLines coe json l1).entries) ∧
+  (∀ (tags : List Bytes) (junk : List JItem),
+    jlItems (tags.map .good ++ junk) = (jlItems junk).prepend (tags.map fun t => ⟨t, [], []⟩))
 
 theorem C13_prefix_preserved (fixed : Bool) : C13_prefix_preserved_statement fixed :=
-  ⟨C13_prefix_preserved_uripost fixed, C13_prefix_preserved_raw fixed, C13_prefix_preserved_uri, grpcLines_append⟩
+  ⟨C13_prefix_preserved_uripost fixed, C13_prefix_preserved_raw fixed, C13_prefix_preserved_uri, grpcLines_append,
+   C13_prefix_preserved_jsonline⟩
 
 /-- C13, "never makes a provider loop or block forever": the decoding loops stop on every input (measure: unread bytes),
 the GCD loop stops, and a grpc/json pass that delivered nothing is not repeated -/
@@ -780,11 +962,13 @@ def C13_terminates_statement (fixed : Bool) : Prop :=
   -- the http decoders over any file, read again and again: with a limit or a pass limit the run ends
   (∀ (one : Run) (passes limit : Nat), one.end_ ≠ .fuel → limit ≠ 0 ∨ passes ≠ 0 → (multiRunAll one passes limit).end_ ≠ .fuel) ∧
   -- MultiPassReader under jsoniter's loadMore loop: never more than two Read calls
-  (∀ (data : Bytes) (passes : Nat) (s : MPR), MPR.WF data s → ∀ k : Nat, (loadByte fixed data passes (k + 2) s).1 ≠ .again)
+  (∀ (data : Bytes) (passes : Nat) (s : MPR), MPR.WF data s → ∀ k : Nat, (loadByte fixed data passes (k + 2) s).1 ≠ .again) ∧
+  -- jsonline, every reading of the file: with a limit or a pass limit the run ends
+  (∀ (src : JSrc) (pre : Bool) (passes limit : Nat), limit ≠ 0 ∨ passes ≠ 0 → (jsonlineRun src pre passes limit).end_ ≠ .fuel)
 
 theorem C13_terminates : C13_terminates_statement true :=
   ⟨C13_terminates_uripost true, C13_terminates_raw true, C13_terminates_step true, C13_terminates_gcd,
-   C13_terminates_grpcjson_pass, C13_terminates_http_passes, C13_terminates_multipass⟩
+   C13_terminates_grpcjson_pass, C13_terminates_http_passes, C13_terminates_multipass, C13_terminates_jsonline⟩
 
 /-! ## the tree as found: each repaired statement is refuted for the variant `fixed := false` -/
 
